@@ -201,6 +201,35 @@ def obs(event, where, extras, conc, abstract, nontrivial, expected=None, expkey=
             'nontrivial': bool(nontrivial), 'expected': expected, 'expkey': expkey}
 
 
+def mirror_case(kind, shape, axes, sign, hc, shifts=None, x0=None):
+    """Case record for configurations beyond the TLC export constants.  Only lattice parameters are mirrored
+    (period M, reference frequencies); TLC re-derives both and rejects the event if they differ."""
+    shape, axes = list(shape), list(axes)
+    case = {'kind': kind, 'shape': shape, 'axes': axes, 'sign': sign, 'hc': hc}
+    if kind == 'dft':
+        M = 1
+        for a in axes:
+            M = M * shape[a] // math.gcd(M, shape[a])
+        case['M'] = M
+    else:
+        M = 1
+        for i, a in enumerate(axes):
+            p = 2 * x0[i][1] * shape[a]
+            M = M * p // math.gcd(M, p)
+        case.update(M=M, shifts=list(shifts), x0=[list(q) for q in x0])
+        rs = ranshape(shape, axes, hc)
+        freqs = []
+        for idx in np.ndindex(*rs):
+            row = []
+            for i, a in enumerate(axes):
+                fr = Fraction(2 * idx[a] - shape[a] + (0 if shifts[i] else 1), 2 * shape[a])
+                row.append([fr.numerator, fr.denominator])
+            freqs.append(row)
+        case['freqs'] = freqs
+        case['mirrored'] = True
+    return case
+
+
 # ------------------------------------------------------------------ task: discrete transform
 def task_dft(task):
     """One abstract DFT case (shape, axes, sign, hc_eff) under one concretisation
@@ -243,7 +272,7 @@ def task_dft(task):
 
     # ---- forward tables
     fwd = None
-    for mode in ('oop', 'ip'):
+    for mode in conc.get('fwd_modes', ('oop', 'ip')):
         ex = cls_extras(shape, axes, mode=mode)
         ev = dict(cfg, k='tab', t='dft', src='odl')
         try:
@@ -405,7 +434,7 @@ def task_ft(task):
         ev = dict(cfg, k='tab', t='ft', src='odl', err=errname(e))
         return [obs(ev, where('FourierTransform', 'construct'), cls_extras(shape, axes, shifts), conc, abstract, True)]
     ker = kernel_rows(case, strides)
-    for mode in ('oop', 'ip'):
+    for mode in conc.get('fwd_modes', ('oop', 'ip')):
         ex = cls_extras(shape, axes, shifts, mode=mode)
         ev = dict(cfg, k='tab', t='ft', src='odl')
         evm = {'k': 'mag', 'slack': 2}
@@ -433,7 +462,7 @@ def task_ft(task):
         if evm is not None:
             res.append(obs(evm, where('FourierTransform', 'ft-magnitude'), ex, conc, abstract, True))
     # inverse: table for complex-to-complex, round trip for all
-    for mode in ('oop', 'ip'):
+    for mode in conc.get('inv_modes', ('oop', 'ip')):
         ex = cls_extras(shape, axes, shifts, mode=mode, how='prop')
         if field == 'C':
             ev = dict(cfg, k='tab', t='ift', src='odl', sign=-sign)
@@ -524,14 +553,28 @@ class HistRig(object):
         dtype = DTYPES[(field, prec)]
         self.prec = prec
         forget()
+        # objects OWNED BY THE CALLER that are handed to the constructor: the 'scribble' action mutates them later
+        self.owned_axes = list(axes)
+        self.owned_shift = [bool(conc.get('shift', True))] * len(axes)
+        self.owned_tmp = []
         if kind == 'dft':
             self.dom = dft_space(shape, dtype)
-            self.T = DiscreteFourierTransform(self.dom, axes=axes, sign=conc.get('sign', '-'), halfcomplex=hcflag,
-                                              impl=impl)
+            self.T = DiscreteFourierTransform(self.dom, axes=self.owned_axes, sign=conc.get('sign', '-'),
+                                              halfcomplex=hcflag, impl=impl)
         else:
             self.dom = odl.uniform_discr([-1.0] * len(shape), [1.0] * len(shape), shape, dtype=dtype)
-            self.T = FourierTransform(self.dom, axes=axes, sign=conc.get('sign', '-'), halfcomplex=hcflag,
-                                      shift=conc.get('shift', True), impl=impl)
+            kw = {}
+            if conc.get('tmp') == 'given':
+                probe = FourierTransform(self.dom, axes=axes, sign=conc.get('sign', '-'), halfcomplex=hcflag,
+                                         shift=conc.get('shift', True), impl=impl)
+                tr = np.zeros(self.dom.shape, dtype=self.dom.dtype)
+                tf = np.zeros(probe.range.shape, dtype=probe.range.dtype)
+                self.owned_tmp = [tr, tf]
+                kw = {'tmp_r': tr, 'tmp_f': tf}
+            self.T = FourierTransform(self.dom, axes=self.owned_axes, sign=conc.get('sign', '-'), halfcomplex=hcflag,
+                                      shift=self.owned_shift, impl=impl, **kw)
+        for a in conc.get('chain', ''):          # T itself may be a derived operator (even chains: forward type)
+            self.T = self.T.inverse if a == 'i' else self.T.adjoint
         self.ran = self.T.range
         rnd = np.random.RandomState(1000 + seed)
         self.ref = {}
@@ -598,6 +641,13 @@ class HistRig(object):
             self.T.init_fftw_plan()
         elif op == 'temps':
             self.T.create_temporaries()
+        elif op == 'scribble':
+            # the caller re-uses / overwrites the objects it passed at construction
+            self.owned_shift[:] = [not v for v in self.owned_shift]
+            self.owned_axes.reverse()
+            self.owned_axes.append(0)
+            for arr in self.owned_tmp:
+                arr[...] = np.nan
         else:
             raise ValueError(op)
 
@@ -612,7 +662,8 @@ def hist_applicable(conc, steps):
 
 
 def hist_class(conc):
-    return 'DiscreteFourierTransform' if conc['kind'] == 'dft' else 'FourierTransform'
+    return ('DiscreteFourierTransform' if conc['kind'] == 'dft' else 'FourierTransform') + \
+        ('' if not conc.get('chain') else '.' + conc['chain'])
 
 
 def task_hist(task):
@@ -660,6 +711,7 @@ def task_hist(task):
                             None if conc['kind'] == 'dft' else [conc.get('shift', True)],
                             mode='ip' if act['op'] in ('callip', 'invip') else 'oop', how=act['op'])
             ex['after'] = '+'.join(seen) if seen else 'fresh'
+            ex['scribbled'] = 'yes' if 'scribble' in seen else 'no'
             res.append(obs(ev, where, ex, dict(conc, behaviour=[s['act'] for s in steps]),
                            ['hist', [s['act'] for s in steps][:len(seen) + 1], conc['kind'], conc['impl'],
                             conc['field'], conc['hcflag']],
@@ -816,7 +868,211 @@ def task_wave_lay(task):
                 ['wave-lay', list(shape), list(axes), case['flen'], case['mode'], L], L > 0, expected)]
 
 
-TASKS = {'dft': task_dft, 'ft': task_ft, 'gauss': task_gauss, 'hist': task_hist,
+# ------------------------------------------------------------------ task: derived operators
+def observe_desc(op, vol):
+    """Option record of an operator obtained through .inverse / .adjoint, read from public attributes; scalar
+    multiples (the wavelet adjoint) are peeled off and reported as the exponent of the cell volume."""
+    from odl.operator import OperatorLeftScalarMult, OperatorRightScalarMult
+    from odl.trafos import WaveletTransform, WaveletTransformInverse
+    scal = 1.0
+    core = op
+    while isinstance(core, (OperatorLeftScalarMult, OperatorRightScalarMult)):
+        scal *= float(np.real(core.scalar))
+        core = core.operator
+    if abs(scal - 1.0) < 1e-12:
+        pw = 0
+    else:
+        t = math.log(scal) / math.log(vol) if scal > 0 and vol not in (0.0, 1.0) else 99.0
+        pw = int(round(t)) if abs(t - round(t)) < 1e-9 else 99
+    d = {'pow': pw, 'wavelet': '', 'mode': '', 'nlevels': 0, 'orth': False, 'shifts': [], 'hc': False, 'sign': 0}
+    if isinstance(core, (DiscreteFourierTransform, DiscreteFourierTransformInverse)):
+        d['kind'] = 'dft'
+        d['dir'] = 'fwd' if isinstance(core, DiscreteFourierTransform) else 'inv'
+    elif isinstance(core, (FourierTransform, FourierTransformInverse)):
+        d['kind'] = 'ft'
+        d['dir'] = 'fwd' if isinstance(core, FourierTransform) else 'inv'
+        d['shifts'] = [bool(v) for v in core.shifts]
+    elif isinstance(core, (WaveletTransform, WaveletTransformInverse)):
+        d['kind'] = 'wave'
+        d['dir'] = 'fwd' if isinstance(core, WaveletTransform) else 'inv'
+        d.update(wavelet=str(core.wavelet), mode=str(core.pad_mode), nlevels=int(core.nlevels),
+                 orth=bool(core.is_orthogonal))
+    else:
+        d.update(kind=type(core).__name__, dir='?')
+        return d, core
+    if d['kind'] != 'wave':
+        d['sign'] = -1 if core.sign == '-' else 1
+        d['hc'] = bool(core.halfcomplex)
+    real = core.domain if d['dir'] == 'fwd' else core.range
+    d.update(axes=[int(a) for a in core.axes], impl=str(core.impl), shape=[int(n) for n in real.shape],
+             field='C' if real.is_complex else 'R', prec=32 if real.dtype in (np.dtype('float32'), np.dtype('complex64')) else 64)
+    return d, core
+
+
+def build_described(D, x0, strides):
+    """Real operator for an option record, built through its CONSTRUCTOR (never through a derivation)."""
+    from odl.trafos import WaveletTransform, WaveletTransformInverse
+    kind, shape, axes = D['kind'], tuple(D['shape']), list(D['axes'])
+    sgn = '-' if D['sign'] < 0 else '+'
+    osgn = '+' if D['sign'] < 0 else '-'
+    if kind == 'wave':
+        sp = wave_space(shape, 0.5)
+        cls = WaveletTransform if D['dir'] == 'fwd' else WaveletTransformInverse
+        return sp, cls(sp, D['wavelet'], nlevels=D['nlevels'], pad_mode=D['mode'], axes=tuple(axes))
+    dtype = DTYPES[(D['field'], D['prec'])]
+    forget()
+    if kind == 'dft':
+        dom = dft_space(shape, dtype)
+        if D['dir'] == 'fwd':
+            return dom, DiscreteFourierTransform(dom, axes=axes, sign=sgn, halfcomplex=D['hc'], impl=D['impl'])
+        fw = DiscreteFourierTransform(dom, axes=axes, sign=osgn, halfcomplex=D['hc'], impl=D['impl'])
+        return dom, DiscreteFourierTransformInverse(range=dom, domain=fw.range, axes=axes, sign=sgn,
+                                                    halfcomplex=D['hc'], impl=D['impl'])
+    dom = ft_space(shape, axes, x0, strides, dtype)
+    shifts = [bool(v) for v in D['shifts']]
+    if D['dir'] == 'fwd':
+        return dom, FourierTransform(dom, axes=axes, sign=sgn, halfcomplex=D['hc'], shift=shifts, impl=D['impl'])
+    fw = FourierTransform(dom, axes=axes, sign=osgn, halfcomplex=D['hc'], shift=shifts, impl=D['impl'])
+    return dom, FourierTransformInverse(range=dom, domain=fw.range, axes=axes, sign=sgn, halfcomplex=D['hc'],
+                                        shift=shifts, impl=D['impl'])
+
+
+DERIV_CLS = {'dft': 'DiscreteFourierTransform', 'ft': 'FourierTransform', 'wave': 'WaveletTransform'}
+
+
+def task_deriv(task):
+    """One derivation chain (TLC export of DFTDerive): base operator by constructor, then .inverse / .adjoint
+    along the path; the option record read from the result and the BEHAVIOUR of the result (table / recovery of
+    the input / adjoint identity / repeated and in-place calls) against the role the specification derives."""
+    base, path, E = task['base'], task['path'], task['desc']
+    kind, shape, axes = base['kind'], tuple(base['shape']), tuple(base['axes'])
+    nd = len(shape)
+    strides = [0.5, 0.25, 1.0][:nd]
+    x0 = [[1 - shape[a], 2] for a in axes]
+    x0 = [[Fraction(p, q).numerator, Fraction(p, q).denominator] for p, q in x0]
+    vol = 0.5 ** nd
+    chain = ''.join(path)
+    cname = DERIV_CLS[kind] + ('Inverse' if base['dir'] == 'inv' else '') + ('.' + chain if chain else '')
+    hcn = ('yes' if base['hc'] else 'no') if kind != 'wave' else '-'
+    abstract = ['deriv', base, path]
+    res = []
+
+    def where(clause):
+        return {'class': cname, 'impl': base['impl'], 'field': 'real' if base['field'] == 'R' else 'complex',
+                'halfcomplex': hcn, 'clause': clause}
+    ex = cls_extras(shape, axes, base['shifts'] if kind == 'ft' else None, mode='oop',
+                    how=(base['wavelet'] + '/' + base['mode']) if kind == 'wave' else '-')
+    if kind == 'wave':
+        ex['levels'] = 'one' if base['nlevels'] == 1 else 'multi'
+    conc = {'x0': x0, 'strides': strides}
+    ev = {'k': 'deriv', 'base': base, 'path': path}
+    D = None
+    try:
+        dom, op = build_described(base, x0, strides)
+        for a in path:
+            op = op.inverse if a == 'i' else op.adjoint
+        D = op
+        ev['obs'], core = observe_desc(op, vol)
+    except Exception as e:
+        ev['obs'] = {}
+        ev['err'] = errname(e)
+    res.append(obs(ev, where('derived-options'), ex, conc, abstract, True, E))
+    if D is None:
+        return res
+    # ---- behaviour of the derived operator in the role the specification derives for it
+    n = int(np.prod(shape))
+    scale = vol ** E['pow']
+    dtype = DTYPES[(base['field'], base['prec'])]
+    units = (1, 1j) if base['field'] == 'C' else (1,)
+    first = None
+    try:
+        if kind == 'dft':
+            case = mirror_case('dft', shape, axes, E['sign'], E['hc'])
+            cfg = {'shape': list(shape), 'axes': list(axes), 'sign': E['sign'], 'hc': E['hc'], 'M': case['M']}
+            if E['dir'] == 'fwd':
+                mat, _, _ = columns(D, 'oop', units)
+                a = mat[:, 0::len(units)]
+                res.append(obs(dict(cfg, k='tab', t='dft', src='odl', obs=project(a, case['M'], 1.0, 64)),
+                               where('dft-table'), ex, conc, abstract, True))
+            else:
+                if base['field'] == 'C':
+                    mat, _, _ = columns(D, 'oop', units)
+                    a = mat[:, 0::2]
+                    res.append(obs(dict(cfg, k='tab', t='idft', src='odl',
+                                        obs=project(a, case['M'], 1.0 / ntrans(shape, axes), 64)),
+                                   where('idft-table'), ex, conc, abstract, True))
+                spectra = [numpy_fft(u, axes, -E['sign'], E['hc']) for u in unit_arrays(shape, dtype)]
+                mat, _, _ = columns(D, 'oop', cols=spectra)
+                res.append(obs({'k': 'id', 'n': n, 'obs': snap_int_matrix(mat, 64)}, where('inverse-recovers-input'),
+                               ex, conc, abstract, True))
+        elif kind == 'ft':
+            case = mirror_case('ft', shape, axes, E['sign'], E['hc'], E['shifts'], x0)
+            cfg = {'shape': list(shape), 'axes': list(axes), 'sign': E['sign'], 'hc': E['hc'], 'M': case['M'],
+                   'shifts': [bool(v) for v in E['shifts']], 'x0': x0}
+            if E['dir'] == 'fwd':
+                mat, _, _ = columns(D, 'oop', units)
+                a = mat[:, 0::len(units)]
+                res.append(obs(dict(cfg, k='tab', t='ft', src='odl', obs=project(a, case['M'], None, 64)),
+                               where('ft-phase'), ex, conc, abstract, True))
+                res.append(obs(dict(cfg, k='magf', slack=2, freqs=case['freqs'],
+                                    rows=mag_rows(a, kernel_rows(case, strides), 64, 1)),
+                               where('ft-magnitude'), ex, conc, abstract, True))
+            else:
+                if base['field'] == 'C':
+                    mat, _, _ = columns(D, 'oop', units)
+                    a = mat[:, 0::2]
+                    res.append(obs(dict(cfg, k='tab', t='ift', src='odl', obs=project(a, case['M'], None, 64)),
+                                   where('ift-phase'), ex, conc, abstract, True))
+                fresh = dict(E, dir='fwd', sign=-E['sign'], pow=0)
+                _, Ff = build_described(fresh, x0, strides)
+                spectra = [np.array(Ff(u).asarray(), copy=True) for u in unit_arrays(shape, dtype)]
+                mat, _, _ = columns(D, 'oop', cols=spectra)
+                res.append(obs({'k': 'id', 'n': n, 'obs': snap_int_matrix(mat, 64)}, where('roundtrip'), ex, conc,
+                               abstract, True))
+        else:
+            _, Wf = build_described(dict(E, dir='fwd', pow=0), x0, strides)
+            if E['dir'] == 'fwd':
+                Wi = Wf.inverse
+                back = [np.array(Wi(np.asarray(D(u).asarray()) / scale).asarray(), copy=True).ravel()
+                        for u in unit_arrays(shape, 'float64')]
+            else:
+                back = [np.asarray(D(Wf(u)).asarray()).ravel() / scale for u in unit_arrays(shape, 'float64')]
+            res.append(obs({'k': 'id', 'n': n, 'obs': snap_int_matrix(np.array(back).T, 64)},
+                           where('wavelet-roundtrip'), ex, conc, abstract, True))
+            claimed = E['orth'] and E['mode'] == 'pywt_periodic' and \
+                all(shape[a] % 2 ** E['nlevels'] == 0 for a in axes)
+            if claimed:
+                Da = D.adjoint
+                xs = [D.domain.element(u) for u in unit_arrays(D.domain.shape, 'float64')]
+                ys = [D.range.element(u) for u in unit_arrays(D.range.shape, 'float64')]
+                Dx = [D(x) for x in xs]
+                Day = [Da(y) for y in ys]
+                lhs = [float(Dx[i].inner(y)) for i in range(len(xs)) for y in ys]
+                rhs = [float(x.inner(Day[j])) for x in xs for j in range(len(ys))]
+                sc = max(max(abs(v) for v in lhs), max(abs(v) for v in rhs), 1e-300)
+                res.append(obs({'k': 'adj', 'a': [quant(v, sc, 20) for v in lhs], 'b': [quant(v, sc, 20) for v in rhs]},
+                               where('wavelet-adjoint'), ex, conc, abstract, True))
+        # ---- repeated and in-place call on the same argument: same value, argument untouched
+        rnd = np.random.RandomState(5)
+        xa = rnd.randint(-3, 4, size=D.domain.shape).astype(D.domain.dtype)
+        x = D.domain.element(xa.copy())
+        y1 = np.array(D(x).asarray(), copy=True)
+        out = D.range.element()
+        out.asarray()[...] = np.nan
+        D(x, out=out)
+        tol = 1e-8 * max(1.0, np.abs(y1).max())
+        same = np.allclose(out.asarray(), y1, rtol=0, atol=tol)
+        kept = np.array_equal(x.asarray(), xa)
+        res.append(obs({'k': 'hist', 'pre': _h('a', r='Fa'), 'act': {'op': 'callip', 'x': 'x1', 'o': 'y'},
+                        'post': _h('a' if kept else 'other', y='Fa' if same else 'other', r='Fa')},
+                       where('history'), dict(ex, mode='ip'), conc, abstract, True))
+    except Exception as e:
+        res.append(obs({'k': 'id', 'n': n, 'obs': [], 'err': errname(e)}, where('derived-behaviour'), ex, conc, abstract,
+                       True))
+    return res
+
+
+TASKS = {'deriv': task_deriv, 'dft': task_dft, 'ft': task_ft, 'gauss': task_gauss, 'hist': task_hist,
          'wave_rt': task_wave_rt, 'wave_adj': task_wave_adj, 'wave_lay': task_wave_lay}
 
 
